@@ -97,7 +97,7 @@ func covToCorr(c *mat.SymDense) {
 		c.SetSym(i, i, 1)
 		for j := i + 1; j < r; j++ {
 			v := c.At(i, j)
-			c.SetSym(i, j, v*sx*s[j])
+			c.SetSym(i, j, clampCorrelation(v*sx*s[j]))
 		}
 	}
 }
